@@ -335,6 +335,42 @@ def check_field_pairing(rep, mod):
                     sample='%s u%s%s: {%s} both ways' % (tag, k[2:], k[:2], ', '.join(sorted(nm(o) for o in a))))
 
 
+def check_resume_offset(rep, mod):
+    """a name / comment that did not fit in the input seen so far is continued at state->count bytes into the user's buffer: that count is a 32-bit quantity (a gzip string is unbounded)"""
+    R = rep.rule('R-HDR-RESUME-OFFSET', 'isal_read_gzip_header: the offset argument of every string_header_copy call (where in the caller\'s name / comment buffer the copy continues) is the 32-bit value loaded from '
+                 'state->count, reaching the call through widening casts and phis only - never narrowed on the way (a narrower temporary wraps for strings longer than it can count and the continuation overwrites '
+                 'the start of the buffer)', floor=2, unit='string copies')
+    off = field_offsets('struct inflate_state', ['count'])['count']
+    f = mod.funcs.get('isal_read_gzip_header')
+    if f is None:
+        raise AnalysisBroken('isal_read_gzip_header not found')
+    P = irrules.prov(mod, f)
+    for cs in [i for i in f.all_insns() if i.op == 'call' and re.sub(r'\.\d+$', '', i.callee or '') == 'string_header_copy']:
+        R.instance()
+        bad, seen, work = None, set(), [cs.args[3][1]]
+        reached = False
+        while work and bad is None:
+            v = work.pop()
+            if v in seen:
+                continue
+            seen.add(v)
+            d = f.defs.get(v)
+            if d is None:
+                bad = 'a value that is not state->count (%s)' % v
+            elif d.op in ('zext', 'sext', 'bitcast', 'freeze'):
+                work.append(d.ops[0])
+            elif d.op == 'phi':
+                work += [x for x, _ in d.extra['incoming']]
+            elif d.op == 'trunc':
+                bad = 'a value narrowed to %s on the way' % d.ty
+            elif d.op == 'load' and P.atoms(d.ops[0]) == {('param', 0, off)}:
+                reached = True
+            else:
+                bad = 'a value computed by "%s"' % d.op
+        R.check(bad is None and reached, mod.where(f, cs), 'isal_read_gzip_header continues a name / comment at %s instead of at the 32-bit state->count' % (bad or 'nothing'), key='R-HDR-RESUME-OFFSET|%s' % (cs.line or 0),
+                sample='continues at state->count (32 bit)')
+
+
 def check_magic(rep, mod):
     """RFC 1952: a member starts with ID1 = 0x1f, ID2 = 0x8b, CM = 8.  Each of the three comparisons must by itself send a mismatch to the documented
     error return; a mismatch edge from which the parser can still be reached (e.g. `&&` instead of `||`) accepts headers with one wrong byte."""
@@ -386,6 +422,7 @@ def main(tier):
     rep.attempt(check_retcodes, rep, mod)
     rep.attempt(check_field_pairing, rep, mod)
     rep.attempt(check_resume, rep, mod)
+    rep.attempt(check_resume_offset, rep, mod)
     rep.attempt(check_magic, rep, mod)
     import acct
     rep.attempt(acct.check, rep, 'z', 4, field_offsets('struct isal_zstream', ['next_in', 'avail_in', 'total_in', 'next_out', 'avail_out', 'total_out']), field_offsets('struct inflate_state', ['next_in', 'avail_in', 'next_out', 'avail_out', 'total_out']), mod, only={'isal_write_gzip_header', 'isal_write_zlib_header'}, suffix='HDR-WRITERS')
